@@ -89,6 +89,12 @@ pub fn generate(seed: u64, index: u64, thorough: bool) -> Scenario {
         sc.sched.pool = sc.sched.pool.max(2);
         sc.sched.mix = [Fx(0.1), Fx(0.1), Fx(0.1), Fx(0.7)];
     }
+    // concurrent callers on the shared parallel problem (own PRNG stream: every other
+    // scenario stays as it was)
+    let mut r2 = Rng::new(mix(seed, "C11-concurrent", index));
+    if r2.chance(if thorough { 0.08 } else { 0.06 }) {
+        make_concurrent(&mut sc, &mut r2);
+    }
     sc
 }
 
@@ -295,6 +301,22 @@ fn compare<T: Sc>(
                     }
                 }
             }
+            (Extra::Concurrent { reference: ra, .. }, Extra::Concurrent { reference: rb, .. }) => {
+                let (ja, jb) = (&ra.1, &rb.1);
+                if ja.bits.is_some() != jb.bits.is_some() || ja.shape != jb.shape {
+                    rep.violate(sc, class, &format!("{what}/{name}/presence"), format!("op {}: Jacobian present in one execution only", sa.op));
+                } else if let (Some(x), Some(y)) = (&ja.bits, &jb.bits) {
+                    let ts = if !strict && x != y { jac_term_scale(world, &ra.0.params, &ra.0.coeff) } else { 0.0 };
+                    let (bit, close) = jac_close::<T>(x, y, ja.shape.0, ts);
+                    if !bit {
+                        jac_bitwise_so_far = false;
+                        rep.probe("jacobian_not_bitwise");
+                        if strict || !close {
+                            rep.violate(sc, class, &format!("{what}/{name}"), format!("op {}: Jacobians differ", sa.op));
+                        }
+                    }
+                }
+            }
             (Extra::Tapped(ta), Extra::Tapped(tb)) => {
                 // walk the optimizer's view of both problems
                 let mut diverged = false;
@@ -406,6 +428,33 @@ fn compare<T: Sc>(
     }
 }
 
+/// `ConcurrentQueries`: what each of the simultaneous callers saw must be bitwise what the
+/// lone caller saw immediately before (same code, same state; only the interleaving of the
+/// callers and of their stolen arms differs). Skipped when a fault fired during the operation
+/// (which caller meets a transient failure is then the schedule's choice).
+fn concurrent_rule<T: Sc>(sc: &Scenario, rep: &mut RunReport, v: &VariantOut<T>, what: &str) {
+    for st in &v.steps {
+        if let Extra::Concurrent { reference, observed, overlapped } = &st.extra {
+            let faulted = v.log[st.ev_from.min(v.log.len())..st.ev_to.min(v.log.len())].iter().any(|e| e.fault.is_some());
+            if faulted {
+                rep.probe("concurrent_queries_gated_by_fault");
+                continue;
+            }
+            rep.probe(if *overlapped { "concurrent_queries_overlapped" } else { "concurrent_queries_serialised" });
+            for (i, o) in observed.iter().enumerate() {
+                match o {
+                    Ok((s, j)) => {
+                        if s != &reference.0 || j != &reference.1 {
+                            rep.violate(sc, "SCHEDULE_DEPENDENCE", &format!("{what}/ConcurrentQueries"), format!("op {}: caller {i} of {} simultaneous callers saw a different {} than a caller querying alone", st.op, observed.len(), if s != &reference.0 { "state" } else { "Jacobian" }));
+                        }
+                    }
+                    Err(p) => rep.violate(sc, "PANIC", &format!("ConcurrentQueries@{}", panic_site(p)), p.clone()),
+                }
+            }
+        }
+    }
+}
+
 fn exec_t<T: Sc, F: Factory<T>>(sc: &Scenario) -> RunReport {
     let mut rep = RunReport::default();
     crate::ctl::set_current(sc);
@@ -462,6 +511,9 @@ fn exec_t<T: Sc, F: Factory<T>>(sc: &Scenario) -> RunReport {
             }
         }
     }
+    // concurrent callers: every simultaneous caller must see what a lone caller sees
+    concurrent_rule(sc, &mut rep, &a, "seeded-schedule");
+    concurrent_rule(sc, &mut rep, &b, "sequential-twin");
     // explicit conversions: state before == state after
     for st in &a.steps {
         if let Extra::Converted { before } = &st.extra {
@@ -496,6 +548,7 @@ fn exec_t<T: Sc, F: Factory<T>>(sc: &Scenario) -> RunReport {
                 rep.executions += 1;
                 rep.events += v.log.len() as u64;
                 compare(sc, &mut rep, &a, &v, true, "SCHEDULE_DEPENDENCE", &format!("pool{}-vs-pool{}", sc.sched.pool, s.pool), nrows, &world);
+                concurrent_rule(sc, &mut rep, &v, "alternative-schedule");
                 rep.probe_n("sched_joins", v.stats.joins);
                 rep.probe_n("sched_inline", v.stats.inline);
                 rep.probe_n("sched_stolen_late", v.stats.late);
